@@ -128,3 +128,19 @@ package cluster
 //@   ensures [queued-for-gossip] called("QueueBroadcast")
 //@   at call QueueBroadcast assert [the-update] true
 //@   noeffect QueueBroadcast
+
+// ---- C19: queued small updates are never replaced by later ones. memberlist's queue replaces a queued broadcast by a
+// later one with the same Name() (NamedBroadcast) or when UniqueBroadcast() exists, and otherwise asks Invalidates;
+// the broadcast type of this package must therefore have neither method (type-level obligation, decided by go/types)
+// and never invalidate (contract below); its message is exactly the bytes it was made from.
+//@ structural broadcasts-are-never-replaced
+//@   props C19
+//@   in github.com/prometheus/alertmanager/cluster
+//@   types simpleBroadcast
+//@   nomethods Name UniqueBroadcast
+//@ func (simpleBroadcast).Invalidates
+//@   props C19
+//@   ensures [never-invalidates] !result
+//@ func (simpleBroadcast).Message
+//@   props C19
+//@   ensures [the-bytes-it-was-made-from] len(result) == len(b) && (forall i int :: 0 <= i && i < len(b) ==> result[i] == b[i])
